@@ -1,4 +1,5 @@
 import MaestroVerif.Lemmas.LauncherLemmas
+import MaestroVerif.Lemmas.LauncherHeaders
 
 /-!
 # C15 — Batch scripts request exactly the declared resources and launcher
@@ -348,6 +349,49 @@ theorem C15_slurm_header_never_fails (cx : Ctx) (name desc : Str) (run : Dict)
     · rename_i e he
       split at he <;> simp at he
     · exact ⟨_, rfl⟩
+
+
+/-! ## the LSF and Flux headers -/
+
+/-- **The LSF header, line by line** (see `Lemmas/LauncherHeaders.lean`): which
+value each directive carries — the step's when the step declares one, else the
+batch block's — and that nothing else is in the header.  The `-nnodes` value is
+the step's `nodes` *entry* whenever there is one: an undeclared (empty) entry
+overrides the batch block's, the known finding `C15-lsf-header-empty`. -/
+theorem C15_lsf_header_exact (cx : Ctx) (name : Str) (run : Dict) (ls : List Str)
+    (hn : (run.map (·.1)).Nodup)
+    (h1 : run.get? "job-name" = none) (h2 : run.get? "output" = none) (h3 : run.get? "error" = none)
+    (h : lsfHeaderLines cx name run = .ok ls) :
+    ∃ wt, lsfWalltime (run.getN "walltime").pyStr = .ok wt ∧
+      ls = [shebang cx, hline "#BSUB -nnodes " (lsfNodes cx run)]
+        ++ lineOf (lsfRequested cx run "queue") "#BSUB -q "
+        ++ lineOf (lsfRequested cx run "bank") "#BSUB -G "
+        ++ [hline "#BSUB -W " (.str wt), hline "#BSUB -J " (.str (replaceChar name ' ' '_')),
+            hline "#BSUB -o " (.str (replaceChar name ' ' '_' ++ ".%J.out".toList))]
+        ++ lineOf (lsfRequested cx run "reservation") "#BSUB -U "
+        ++ [hline "#BSUB -e " (.str (replaceChar name ' ' '_' ++ ".%J.err".toList))] :=
+  lsf_header_exact cx name run ls hn h1 h2 h3 h
+
+/-- LSF wants `HH:MM`: seconds are rounded up into the minutes, minutes carry
+into the hours -/
+theorem C15_lsf_walltime_examples :
+    lsfWalltime "00:10:30".toList = .ok "00:11".toList ∧
+    lsfWalltime "01:59:01".toList = .ok "02:00".toList ∧
+    lsfWalltime "12:00".toList = .ok "12:00".toList ∧
+    lsfWalltime "30".toList = .ok "30".toList := by decide +kernel
+
+/-- **The Flux header, line by line** (informational comments only). -/
+theorem C15_flux_header_exact (cx : Ctx) (run : Dict) (ls : List Str) (h : fluxHeaderLines cx run = .ok ls)
+    (hb1 : cx.batch.get? "walltime" = none) (hb2 : cx.batch.get? "flux_version" = none) :
+    ∃ wt, fluxWalltime (run.getN "walltime") = .ok wt ∧
+      ls = [shebang cx]
+        ++ lineOf (if (run.getN "nodes").truthy then some (run.getN "nodes") else cx.batch.get? "nodes")
+            "#INFO (nodes) "
+        ++ [hline "#INFO (walltime) " (.str wt)]
+        ++ lineOf (cx.batch.get? "version") "#INFO (flux adapter version) "
+        ++ [hline "#INFO (flux version) " (.str cx.fluxVer)]
+        ++ lineOf (cx.batch.get? "flux_uri") "#INFO (flux_uri) " :=
+  flux_header_exact cx run ls h hb1 hb2
 
 /-! ## rejection is clean on Slurm and Flux -/
 
